@@ -1,6 +1,11 @@
 (* FeaturesIO.v — decoding of generated cases and encoding of observations for the
    state-feature model (dispatch kind 8).
-   case := [order; states; transitions; ignore; nmodels; init; history; tags; hooks]
+   case := [order; states; transitions; ignore; nmodels; init; history; tags; hooks;
+            paths; inits; pre; cls; k]
+     paths       : list of [state; [ids from the root ancestor to the state]]   ([] = flat)
+     inits       : list of [compound state; initial child]
+     pre, cls    : lists of [model; hook; object id]: instance / class attributes that exist
+                   under hook names before the machine is attached; k = number of such objects
      order       : list of feature codes (0 Tags, 1 Error, 2 Volatile, 3 Retry)
      states      : list of [id; [g_tags g_accepted g_hook g_retry]; enter; exit; tags; accepted;
                             hook; retries; on_failure option]
@@ -10,11 +15,12 @@
    observation := [1; [1; exn]]                       construction raised
                 | [1; [0; tag table; steps; steps of the undecorated machine (no hooks inspected);
                        steps of the specification FeaturesSpec.spec_run (used to validate the
-                       harness's oracle, not compared with the implementation)]]
+                       harness's oracle, not compared with the implementation);
+                       flat cases: steps of the hierarchical engine on the flat configuration]]
      tag table : per state, per inspected tag: [] (AttributeError) or [bool]
      step      : [items; result; per model [state; per inspected hook: [] or [object id]]] *)
 From Coq Require Import List Arith Bool.
-From M Require Import Sx Features FeaturesSpec.
+From M Require Import Sx Features FeaturesSpec FeaturesH.
 Import ListNotations.
 
 Definition d_feature (x : sx) : option feature :=
@@ -57,44 +63,76 @@ Definition e_fitem (i : fitem) : sx :=
 Definition e_fres (r : fres) : sx :=
   match r with RTrue => L [N 0; N 1] | RFalse => L [N 0; N 0] | RExn e => L [N 1; e_fexn e] end.
 
-Definition e_model (hooks : list nat) (r : mrec) : sx :=
-  L [N (m_state r); L (map (fun h => e_option e_nat (m_hooks r h)) hooks)].
+Definition d_triple (x : sx) : option (nat * nat * nat) :=
+  match x with L [N a; N b; N c] => Some (a, b, c) | _ => None end.
+Fixpoint lookup3 (l : list (nat * nat * nat)) (m h : nat) : option nat :=
+  match l with
+  | [] => None
+  | (a, b, c) :: r => if Nat.eqb a m && Nat.eqb b h then Some c else lookup3 r m h
+  end.
 
-Definition e_step (nm : nat) (hooks : list nat) (o : list fitem * world * fres) : sx :=
+(* what getattr(model, hook) shows: instance attribute, else class attribute *)
+Definition e_model (cls : nat -> nat -> option nat) (hooks : list nat) (w : world) (m : nat) : sx :=
+  L [N (m_state (w_m w m)); L (map (fun h => e_option e_nat (visible cls w m h)) hooks)].
+
+Definition e_step (cls : nat -> nat -> option nat) (nm : nat) (hooks : list nat)
+                  (o : list fitem * world * fres) : sx :=
   match o with
   | (tr, w, res) =>
-      L [e_list e_fitem tr; e_fres res; L (map (fun m => e_model hooks (w_m w m)) (seq 0 nm))]
+      L [e_list e_fitem tr; e_fres res; L (map (e_model cls hooks w) (seq 0 nm))]
   end.
 
 (* a call of the specification, in the same format (hooks read through spec_hooks) *)
-Definition e_sstep (c : fcfg) (nm : nat) (hooks : list nat) (o : list fitem * sworld * fres) : sx :=
+Definition e_sstep (c : fcfg) (cls : nat -> nat -> option nat) (nm : nat) (hooks : list nat)
+                   (o : list fitem * sworld * fres) : sx :=
   match o with
   | (tr, sw, res) =>
       L [e_list e_fitem tr; e_fres res;
          L (map (fun m => L [N (sp_state (sw_m sw m));
-                             L (map (fun h => e_option e_nat (spec_hooks c (sw_m sw m) h)) hooks)])
+                             L (map (fun h => e_option e_nat
+                                                (match spec_hooks c (sw_m sw m) h with
+                                                 | Some o => Some o | None => cls m h end)) hooks)])
                 (seq 0 nm))]
   end.
 
 Definition e_tagtable (c : fcfg) (tags : list nat) : sx :=
   L (map (fun sd => L (map (fun t => e_option e_bool (tag_answer c (fst sd) t)) tags)) (c_states c)).
 
+(* flat case (no paths, no initial children): the flat engine [frun] of the theorems, its
+   specification, and the hierarchical engine on the same flat configuration (must coincide);
+   nested case: the hierarchical engine [hrun]. *)
 Definition run_features_case (x : sx) : sx :=
   match x with
-  | L [ox; sx_; tx; ign; N nm; N s0; hx; tgx; hkx] =>
+  | L [ox; sx_; tx; ign; N nm; N s0; hx; tgx; hkx; px; ix; prex; clsx; N k] =>
       match d_list d_feature ox, d_list d_fstate sx_, d_list d_ftrans tx, d_bool ign,
-            d_list (d_pair d_nat d_nat) hx, d_list d_nat tgx, d_list d_nat hkx with
-      | Some o, Some sts, Some ts, Some ig, Some h, Some tags, Some hooks =>
+            d_list (d_pair d_nat d_nat) hx, d_list d_nat tgx, d_list d_nat hkx,
+            d_list (d_pair d_nat (d_list d_nat)) px, d_list (d_pair d_nat d_nat) ix,
+            d_list d_triple prex, d_list d_triple clsx with
+      | Some o, Some sts, Some ts, Some ig, Some h, Some tags, Some hooks, Some paths, Some inits,
+        Some pre, Some cls =>
           match build o (map snd sts) with
           | Some e => L [N 1; L [N 1; e_fexn e]]
           | None =>
               let c := mkCfg o (map (fun p => (fst p, snd (snd p))) sts) ts ig in
-              L [N 1; L [N 0; e_tagtable c tags;
-                         L (map (e_step nm hooks) (frun c (init_world s0) h));
-                         L (map (e_step nm []) (frun (plain_cfg c) (init_world s0) h));
-                         L (map (e_sstep c nm hooks) (spec_run c (spec_init s0) h))]]
+              let w0 := init_world_p s0 (lookup3 pre) k in
+              let cl := lookup3 cls in
+              let nocl := fun _ _ : nat => @None nat in
+              match paths, inits with
+              | [], [] =>
+                  L [N 1; L [N 0; e_tagtable c tags;
+                             L (map (e_step cl nm hooks) (frun c w0 h));
+                             L (map (e_step nocl nm []) (frun (plain_cfg c) w0 h));
+                             L (map (e_sstep c cl nm hooks) (spec_run c (spec_init_p s0 (lookup3 pre) k) h));
+                             L (map (e_step cl nm hooks) (hrun (hflat c) w0 h))]]
+              | _, _ =>
+                  let hc := mkH c paths inits in
+                  L [N 1; L [N 0; e_tagtable c tags;
+                             L (map (e_step cl nm hooks) (hrun hc w0 h));
+                             L (map (e_step nocl nm []) (hrun (hplain hc) w0 h));
+                             L []; L []]]
+              end
           end
-      | _, _, _, _, _, _, _ => L [N 0]
+      | _, _, _, _, _, _, _, _, _, _, _ => L [N 0]
       end
   | _ => L [N 0]
   end.
